@@ -306,14 +306,11 @@ def sign (sk : SigningKey) : PO Unit :=
     if !hasPriv || !cs then PO.fail "op-not-allowed" else prim "c03.prim.sign" [.str sk.family]
   | .ecdsa _ priv _ cs _ =>
     if priv.isNone || !cs then PO.fail "op-not-allowed" else prim "c03.prim.sign" [.str sk.family]
+  -- eddsa.go: `if key.priv == nil || !key.canSign { return nil, sig.ErrSignUnavailable }`
   | .ed25519 hasPriv cs _ =>
-    if !cs then PO.fail "op-not-allowed"
-    else if !hasPriv then PO.panic "ed25519.Sign.badkeylen"   -- ed25519.Sign(nil, …)
-    else pure ()
+    if !hasPriv || !cs then PO.fail "op-not-allowed" else pure ()
   | .ed448 hasPriv cs _ =>
-    if !cs then PO.fail "op-not-allowed"
-    else if !hasPriv then PO.panic "ed448.Sign.badkeylen"     -- ed448.Sign(nil, …)
-    else pure ()
+    if !hasPriv || !cs then PO.fail "op-not-allowed" else pure ()
   | .none => pure ()
 
 /-- SigningKey.Verify on a signature of `sigLen` bytes; `ctx` only names the (payload, signature)
